@@ -4,3 +4,459 @@ From Coq Require Import ZArith List Bool Lia.
 From TV Require Import Base.Prelude Model.C14_Defrag Proofs.C14_Transport.
 Import ListNotations.
 Open Scope Z_scope.
+
+(* bytes are never negative (Python bytearray elements are 0..255) *)
+Definition nonneg (l : list Z) : Prop := Forall (fun x => 0 <= x) l.
+
+Lemma nonneg_app a c : nonneg a -> nonneg c -> nonneg (a ++ c).
+Proof. unfold nonneg. intros. apply Forall_app. split; assumption. Qed.
+
+Lemma nonneg_app_inv a c : nonneg (a ++ c) -> nonneg a /\ nonneg c.
+Proof. unfold nonneg. intros H. apply Forall_app in H. exact H. Qed.
+
+Lemma nonneg_firstn n l : nonneg l -> nonneg (firstn n l).
+Proof.
+  unfold nonneg. intros H. rewrite <- (firstn_skipn n l) in H. apply Forall_app in H. tauto.
+Qed.
+
+Lemma nonneg_skipn n l : nonneg l -> nonneg (skipn n l).
+Proof.
+  unfold nonneg. intros H. rewrite <- (firstn_skipn n l) in H. apply Forall_app in H. tauto.
+Qed.
+
+Lemma be_val_from_nonneg l : forall a, 0 <= a -> nonneg l -> 0 <= fold_left (fun a x => a * 256 + x) l a.
+Proof.
+  induction l as [|x l IH]; intros a Ha Hl; cbn [fold_left]; [exact Ha|].
+  inversion Hl; subst. apply IH; [lia|assumption].
+Qed.
+
+Lemma be_val_nonneg l : nonneg l -> 0 <= be_val l.
+Proof. intros H. unfold be_val. apply be_val_from_nonneg; [lia|exact H]. Qed.
+
+Definition dwf (dec : decoder) : Prop := dec_wf dec = true.
+
+(* a complete message has positive size and fits *)
+Lemma msg_size_range dec data n :
+  dwf dec -> nonneg data -> msg_size dec data = Some n -> 1 <= n <= zlen data.
+Proof.
+  unfold dwf. intros Hw Hd H. destruct dec as [size|off sz]; cbn [msg_size dec_wf] in *.
+  - destruct (zlen data <? size) eqn:E; [discriminate|]. injection H as <-. lia.
+  - apply andb_true_iff in Hw. destruct Hw as [H1 H2].
+    destruct (zlen data <? off + sz) eqn:E; [discriminate|].
+    set (p := be_val (firstn (Z.to_nat sz) (skipn (Z.to_nat off) data))) in *.
+    assert (0 <= p) by (apply be_val_nonneg, nonneg_firstn, nonneg_skipn; exact Hd).
+    destruct (zlen data - (off + sz) <? p) eqn:E2; [discriminate|]. injection H as <-. lia.
+Qed.
+
+(* once complete, appending more bytes does not change the verdict *)
+Lemma msg_size_stable dec data x n :
+  dwf dec -> msg_size dec data = Some n -> msg_size dec (data ++ x) = Some n.
+Proof.
+  unfold dwf. intros Hw H. pose proof (zlen_nonneg x) as Hx.
+  destruct dec as [size|off sz]; cbn [msg_size dec_wf] in *.
+  - rewrite zlen_app. destruct (zlen data <? size) eqn:E; [discriminate|].
+    destruct (zlen data + zlen x <? size) eqn:E2; [lia|exact H].
+  - apply andb_true_iff in Hw. destruct Hw as [H1 H2].
+    rewrite zlen_app.
+    destruct (zlen data <? off + sz) eqn:E; [discriminate|].
+    destruct (zlen data + zlen x <? off + sz) eqn:E3; [lia|].
+    assert (Hs : firstn (Z.to_nat sz) (skipn (Z.to_nat off) (data ++ x))
+                 = firstn (Z.to_nat sz) (skipn (Z.to_nat off) data)).
+    { rewrite skipn_short_Z by lia. rewrite firstn_app.
+      assert (Hl : (Z.to_nat sz <= length (skipn (Z.to_nat off) data))%nat).
+      { rewrite skipn_length. unfold zlen in *. lia. }
+      replace (Z.to_nat sz - length (skipn (Z.to_nat off) data))%nat with 0%nat by lia.
+      cbn [firstn]. apply app_nil_r. }
+    rewrite Hs.
+    set (p := be_val (firstn (Z.to_nat sz) (skipn (Z.to_nat off) data))) in *.
+    destruct (zlen data - (off + sz) <? p) eqn:E2; [discriminate|].
+    destruct (zlen data + zlen x - (off + sz) <? p) eqn:E4; [lia|exact H].
+Qed.
+
+(* ---- parse_stream ------------------------------------------------------------------------- *)
+Lemma parse_fuel_stable dec (Hw : dwf dec) : forall f1 f2 data,
+  nonneg data -> (length data < f1)%nat -> (length data < f2)%nat ->
+  parse_fuel f1 dec data = parse_fuel f2 dec data.
+Proof.
+  induction f1 as [|f1 IH]; intros f2 data Hd H1 H2; [lia|].
+  destruct f2 as [|f2]; [lia|]. cbn [parse_fuel].
+  destruct (msg_size dec data) as [n|] eqn:E; [|reflexivity].
+  pose proof (msg_size_range dec data n Hw Hd E) as Hn.
+  assert (Hl : (length (skipn (Z.to_nat n) data) < length data)%nat).
+  { rewrite skipn_length. unfold zlen in Hn. lia. }
+  rewrite (IH f2 (skipn (Z.to_nat n) data)); [reflexivity|apply nonneg_skipn; exact Hd|lia|lia].
+Qed.
+
+Lemma parse_stream_unfold dec (Hw : dwf dec) data : nonneg data ->
+  parse_stream dec data =
+  match msg_size dec data with
+  | None => ([], data)
+  | Some n => let '(ms, rest) := parse_stream dec (skipn (Z.to_nat n) data) in
+              (firstn (Z.to_nat n) data :: ms, rest)
+  end.
+Proof.
+  intros Hd. unfold parse_stream at 1. cbn [parse_fuel].
+  destruct (msg_size dec data) as [n|] eqn:E; [|reflexivity].
+  pose proof (msg_size_range dec data n Hw Hd E) as Hn.
+  unfold parse_stream.
+  rewrite (parse_fuel_stable dec Hw (length data) (S (length (skipn (Z.to_nat n) data))));
+    [reflexivity|apply nonneg_skipn; exact Hd| |lia].
+  rewrite skipn_length. unfold zlen in Hn. lia.
+Qed.
+
+(* induction principle on the length of the buffer *)
+Lemma length_ind (P : list Z -> Prop) :
+  (forall l, (forall l', (length l' < length l)%nat -> P l') -> P l) -> forall l, P l.
+Proof.
+  intros H l. assert (G : forall n l, (length l < n)%nat -> P l).
+  { induction n as [|n IH]; intros l0 Hl; [lia|]. apply H. intros l' Hl'. apply IH. lia. }
+  apply (G (S (length l))). lia.
+Qed.
+
+Lemma parse_rest_incomplete dec (Hw : dwf dec) : forall data, nonneg data ->
+  msg_size dec (snd (parse_stream dec data)) = None /\ nonneg (snd (parse_stream dec data)).
+Proof.
+  apply (length_ind (fun data => nonneg data ->
+    msg_size dec (snd (parse_stream dec data)) = None /\ nonneg (snd (parse_stream dec data)))).
+  intros data IH Hd. rewrite (parse_stream_unfold dec Hw data Hd).
+  destruct (msg_size dec data) as [n|] eqn:E; [|cbn [snd]; split; assumption].
+  pose proof (msg_size_range dec data n Hw Hd E) as Hn.
+  specialize (IH (skipn (Z.to_nat n) data)).
+  destruct (parse_stream dec (skipn (Z.to_nat n) data)) as [ms rest]. cbn [snd] in *.
+  apply IH; [|apply nonneg_skipn; exact Hd].
+  rewrite skipn_length. unfold zlen in Hn. lia.
+Qed.
+
+(* parsing b ++ x = parsing b, then parsing what was left of b followed by x *)
+Lemma parse_append dec (Hw : dwf dec) x (Hx : nonneg x) : forall data, nonneg data ->
+  parse_stream dec (data ++ x) =
+  (fst (parse_stream dec data) ++ fst (parse_stream dec (snd (parse_stream dec data) ++ x)),
+   snd (parse_stream dec (snd (parse_stream dec data) ++ x))).
+Proof.
+  apply (length_ind (fun data => nonneg data -> parse_stream dec (data ++ x) =
+    (fst (parse_stream dec data) ++ fst (parse_stream dec (snd (parse_stream dec data) ++ x)),
+     snd (parse_stream dec (snd (parse_stream dec data) ++ x))))).
+  intros data IH Hd.
+  rewrite (parse_stream_unfold dec Hw data Hd).
+  destruct (msg_size dec data) as [n|] eqn:E.
+  - pose proof (msg_size_range dec data n Hw Hd E) as Hn.
+    rewrite (parse_stream_unfold dec Hw (data ++ x) (nonneg_app _ _ Hd Hx)).
+    rewrite (msg_size_stable dec data x n Hw E).
+    rewrite skipn_short_Z by lia. rewrite firstn_short_Z by lia.
+    specialize (IH (skipn (Z.to_nat n) data)).
+    rewrite IH; [|rewrite skipn_length; unfold zlen in Hn; lia|apply nonneg_skipn; exact Hd].
+    destruct (parse_stream dec (skipn (Z.to_nat n) data)) as [ms rest]. cbn [fst snd].
+    reflexivity.
+  - cbn [fst snd app].
+    destruct (parse_stream dec (data ++ x)) as [ms rest]. reflexivity.
+Qed.
+
+(* ---- the multi-type defragmenter -------------------------------------------------------- *)
+Definition dinv (d : defrag) : Prop :=
+  wf d = true /\ nodup_types d = true /\ Forall (fun e => nonneg (e_buf e)) d.
+
+Lemma buffer_of_cons t e d :
+  buffer_of t (e :: d) = if e_type e =? t then e_buf e else buffer_of t d.
+Proof. unfold buffer_of. cbn [find]. destruct (e_type e =? t); reflexivity. Qed.
+
+Lemma decoder_of_cons t e d :
+  decoder_of t (e :: d) = if e_type e =? t then Some (e_dec e) else decoder_of t d.
+Proof. unfold decoder_of. cbn [find]. destruct (e_type e =? t); reflexivity. Qed.
+
+Lemma defined_cons t e d : defined t (e :: d) = (e_type e =? t) || defined t d.
+Proof. reflexivity. Qed.
+
+Lemma decoder_defined t d dec : decoder_of t d = Some dec -> defined t d = true.
+Proof.
+  induction d as [|e d IH]; [discriminate|].
+  rewrite decoder_of_cons, defined_cons. destruct (e_type e =? t); [reflexivity|exact IH].
+Qed.
+
+Lemma dinv_cons e d : dinv (e :: d) ->
+  dwf (e_dec e) /\ defined (e_type e) d = false /\ nonneg (e_buf e) /\ dinv d.
+Proof.
+  unfold dinv, dwf. cbn [wf forallb nodup_types]. intros [H1 [H2 H3]].
+  apply andb_true_iff in H1. apply andb_true_iff in H2. inversion H3; subst.
+  destruct H1, H2. repeat split; try assumption.
+  destruct (defined (e_type e) d); [discriminate|reflexivity].
+Qed.
+
+Lemma dinv_cons_intro e d :
+  dwf (e_dec e) -> defined (e_type e) d = false -> nonneg (e_buf e) -> dinv d -> dinv (e :: d).
+Proof.
+  unfold dinv, dwf. intros H1 H2 H3 [H4 [H5 H6]]. split; [|split].
+  - change (wf (e :: d)) with (dec_wf (e_dec e) && wf d). rewrite H1, H4. reflexivity.
+  - change (nodup_types (e :: d)) with (negb (defined (e_type e) d) && nodup_types d).
+    rewrite H2, H5. reflexivity.
+  - constructor; assumption.
+Qed.
+
+Lemma buffer_of_nonneg t d : dinv d -> nonneg (buffer_of t d).
+Proof.
+  induction d as [|e d IH]; intros H.
+  - unfold buffer_of. cbn. constructor.
+  - apply dinv_cons in H. destruct H as [_ [_ [Hb Hd]]].
+    rewrite buffer_of_cons. destruct (e_type e =? t); [exact Hb|apply IH; exact Hd].
+Qed.
+
+Lemma decoder_of_wf t d dec : dinv d -> decoder_of t d = Some dec -> dwf dec.
+Proof.
+  induction d as [|e d IH]; intros H; [discriminate|].
+  apply dinv_cons in H. destruct H as [Hw [_ [_ Hd]]].
+  rewrite decoder_of_cons. destruct (e_type e =? t).
+  - intros E. injection E as <-. exact Hw.
+  - apply IH. exact Hd.
+Qed.
+
+Lemma get_message_some : forall d, dinv d -> forall t m d', get_message d = Some ((t, m), d') ->
+  exists dec n, decoder_of t d = Some dec /\ msg_size dec (buffer_of t d) = Some n /\
+    m = firstn (Z.to_nat n) (buffer_of t d) /\
+    buffer_of t d' = skipn (Z.to_nat n) (buffer_of t d) /\
+    (forall t', t' <> t -> buffer_of t' d' = buffer_of t' d) /\
+    (forall t', decoder_of t' d' = decoder_of t' d) /\
+    (forall t', defined t' d' = defined t' d) /\
+    dinv d' /\ (total_len d' < total_len d)%nat.
+Proof.
+  induction d as [|e d IH]; intros Hinv t m d' H; [discriminate|].
+  pose proof (dinv_cons e d Hinv) as [Hw [Hnd [Hb Hd]]].
+  destruct e as [[ty0 dec0] buf0]. cbn [e_type e_dec e_buf fst snd] in *.
+  cbn [get_message e_type e_dec e_buf fst snd] in H.
+  destruct (msg_size dec0 buf0) as [n|] eqn:E.
+  - injection H as <- <- <-.
+    pose proof (msg_size_range _ _ _ Hw Hb E) as Hn.
+    exists dec0, n.
+    rewrite !buffer_of_cons, decoder_of_cons. cbn [e_type e_buf e_dec fst snd]. rewrite Z.eqb_refl.
+    split; [reflexivity|]. split; [exact E|]. split; [reflexivity|]. split; [reflexivity|].
+    split.
+    { intros t' Ht. rewrite !buffer_of_cons. cbn [e_type e_buf fst snd].
+      destruct (ty0 =? t') eqn:Et; [apply Z.eqb_eq in Et; congruence|reflexivity]. }
+    split; [intros t'; rewrite !decoder_of_cons; reflexivity|].
+    split; [intros t'; rewrite !defined_cons; reflexivity|].
+    split.
+    { apply dinv_cons_intro; cbn [e_type e_dec e_buf fst snd]; try assumption.
+      apply nonneg_skipn. exact Hb. }
+    cbn [total_len fold_right e_buf snd]. fold (total_len d). rewrite skipn_length.
+    unfold zlen in Hn. lia.
+  - destruct (get_message d) as [[m0 d0]|] eqn:Eg; [|discriminate].
+    injection H as -> <-.
+    destruct (IH Hd t m d0 eq_refl) as [dec [n [H1 [H2 [H3 [H4 [H5 [H6 [H7 [H8 H9]]]]]]]]]].
+    assert (Hne : (ty0 =? t) = false).
+    { destruct (ty0 =? t) eqn:Et; [|reflexivity]. apply Z.eqb_eq in Et. subst t.
+      rewrite (decoder_defined _ _ _ H1) in Hnd. discriminate. }
+    exists dec, n. rewrite !buffer_of_cons, decoder_of_cons. cbn [e_type e_dec e_buf fst snd]. rewrite Hne.
+    split; [exact H1|]. split; [exact H2|]. split; [exact H3|]. split; [exact H4|].
+    split.
+    { intros t' Ht. rewrite !buffer_of_cons. cbn [e_type e_buf fst snd].
+      destruct (ty0 =? t'); [reflexivity|apply H5; exact Ht]. }
+    split.
+    { intros t'. rewrite !decoder_of_cons. cbn [e_type e_dec fst snd].
+      destruct (ty0 =? t'); [reflexivity|apply H6]. }
+    split; [intros t'; rewrite !defined_cons, H7; reflexivity|].
+    split.
+    { apply dinv_cons_intro; cbn [e_type e_dec e_buf fst snd]; try assumption. rewrite H7. exact Hnd. }
+    cbn [total_len fold_right]. fold (total_len d0). fold (total_len d). lia.
+Qed.
+
+Lemma get_message_none : forall d, get_message d = None ->
+  forall t dec, decoder_of t d = Some dec -> msg_size dec (buffer_of t d) = None.
+Proof.
+  induction d as [|e d IH]; intros H t dec Hdec; [discriminate|].
+  cbn [get_message] in H.
+  destruct (msg_size (e_dec e) (e_buf e)) as [n|] eqn:E; [discriminate|].
+  destruct (get_message d) as [[m0 d0]|] eqn:Eg; [discriminate|].
+  rewrite decoder_of_cons in Hdec. rewrite buffer_of_cons.
+  destruct (e_type e =? t).
+  - injection Hdec as <-. exact E.
+  - apply IH; [reflexivity|exact Hdec].
+Qed.
+
+Lemma msgs_of_cons t t0 m ms :
+  msgs_of t ((t0, m) :: ms) = if t0 =? t then m :: msgs_of t ms else msgs_of t ms.
+Proof. unfold msgs_of. cbn [filter fst]. destruct (t0 =? t); reflexivity. Qed.
+
+Lemma msgs_of_app t a c : msgs_of t (a ++ c) = msgs_of t a ++ msgs_of t c.
+Proof. unfold msgs_of. rewrite filter_app, map_app. reflexivity. Qed.
+
+(* draining: per type exactly the complete messages of its buffer, the rest stays; the
+   fuel S (total_len d) never runs out (get_message = None at the end) *)
+Lemma drain_fuel_spec : forall fuel d, dinv d -> (total_len d < fuel)%nat ->
+  get_message (snd (drain_fuel fuel d)) = None /\ dinv (snd (drain_fuel fuel d)) /\
+  (forall t, decoder_of t (snd (drain_fuel fuel d)) = decoder_of t d) /\
+  (forall t, defined t (snd (drain_fuel fuel d)) = defined t d) /\
+  forall t dec, decoder_of t d = Some dec ->
+    msgs_of t (fst (drain_fuel fuel d)) = fst (parse_stream dec (buffer_of t d)) /\
+    buffer_of t (snd (drain_fuel fuel d)) = snd (parse_stream dec (buffer_of t d)).
+Proof.
+  induction fuel as [|fuel IH]; intros d Hinv Hf; [lia|].
+  cbn [drain_fuel].
+  destruct (get_message d) as [[[t0 m] d1]|] eqn:Eg.
+  - destruct (get_message_some d Hinv t0 m d1 Eg) as [dec0 [n [H1 [H2 [H3 [H4 [H5 [H6 [H7 [H8 H9]]]]]]]]]].
+    specialize (IH d1 H8 ltac:(lia)).
+    destruct (drain_fuel fuel d1) as [ms d2]. cbn [fst snd] in *.
+    destruct IH as [I1 [I2 [I3 [I4 I5]]]].
+    split; [exact I1|]. split; [exact I2|].
+    split; [intros t; rewrite I3; apply H6|].
+    split; [intros t; rewrite I4; apply H7|].
+    intros t dec Hdec. rewrite msgs_of_cons.
+    assert (Hdec1 : decoder_of t d1 = Some dec) by (rewrite H6; exact Hdec).
+    destruct (I5 t dec Hdec1) as [J1 J2].
+    destruct (t0 =? t) eqn:Et.
+    + apply Z.eqb_eq in Et. subst t0.
+      assert (dec0 = dec) by congruence. subst dec0.
+      rewrite (parse_stream_unfold dec (decoder_of_wf t d dec Hinv Hdec) (buffer_of t d)
+                 (buffer_of_nonneg t d Hinv)).
+      rewrite H2. rewrite H4 in J1, J2.
+      destruct (parse_stream dec (skipn (Z.to_nat n) (buffer_of t d))) as [ms' rest].
+      cbn [fst snd] in *. rewrite J1, J2, H3. split; reflexivity.
+    + apply Z.eqb_neq in Et. rewrite (H5 t ltac:(congruence)) in J1, J2. split; assumption.
+  - cbn [fst snd]. split; [exact Eg|]. split; [exact Hinv|].
+    split; [reflexivity|]. split; [reflexivity|].
+    intros t dec Hdec.
+    rewrite (parse_stream_unfold dec (decoder_of_wf t d dec Hinv Hdec) (buffer_of t d)
+               (buffer_of_nonneg t d Hinv)).
+    rewrite (get_message_none d Eg t dec Hdec). cbn [fst snd]. split; reflexivity.
+Qed.
+
+Lemma append_to_spec ty data : forall d, dinv d -> nonneg data -> defined ty d = true ->
+  dinv (append_to ty data d) /\
+  buffer_of ty (append_to ty data d) = buffer_of ty d ++ data /\
+  (forall t, t <> ty -> buffer_of t (append_to ty data d) = buffer_of t d) /\
+  (forall t, decoder_of t (append_to ty data d) = decoder_of t d) /\
+  (forall t, defined t (append_to ty data d) = defined t d).
+Proof.
+  induction d as [|e d IH]; intros Hinv Hdata Hdef; [discriminate|].
+  pose proof (dinv_cons e d Hinv) as [Hw [Hnd [Hb Hd]]].
+  destruct e as [[ty0 dec0] buf0]. cbn [e_type e_dec e_buf fst snd] in *.
+  cbn [append_to e_type e_dec e_buf fst snd]. rewrite defined_cons in Hdef. cbn [e_type fst] in Hdef.
+  destruct (ty0 =? ty) eqn:Et.
+  - rewrite !buffer_of_cons. cbn [e_type e_buf fst snd]. rewrite Et.
+    split.
+    { apply dinv_cons_intro; cbn [e_type e_dec e_buf fst snd]; try assumption. apply nonneg_app; assumption. }
+    split; [reflexivity|].
+    split.
+    { intros t Ht. rewrite !buffer_of_cons. cbn [e_type e_buf fst snd].
+      destruct (ty0 =? t) eqn:E2; [|reflexivity].
+      apply Z.eqb_eq in E2. apply Z.eqb_eq in Et. congruence. }
+    split; intros t; [rewrite !decoder_of_cons|rewrite !defined_cons]; reflexivity.
+  - cbn [orb] in Hdef. destruct (IH Hd Hdata Hdef) as [I1 [I2 [I3 [I4 I5]]]].
+    rewrite !buffer_of_cons. cbn [e_type e_buf fst snd]. rewrite Et.
+    split.
+    { apply dinv_cons_intro; cbn [e_type e_dec e_buf fst snd]; try assumption. rewrite I5. exact Hnd. }
+    split; [exact I2|].
+    split.
+    { intros t Ht. rewrite !buffer_of_cons. cbn [e_type e_buf fst snd].
+      destruct (ty0 =? t); [reflexivity|apply I3; exact Ht]. }
+    split; intros t; [rewrite !decoder_of_cons, I4|rewrite !defined_cons, I5]; reflexivity.
+Qed.
+
+Lemma stream_for_cons t ty data rs :
+  stream_for t ((ty, data) :: rs) = (if ty =? t then data else []) ++ stream_for t rs.
+Proof. unfold stream_for. cbn [filter fst]. destruct (ty =? t); reflexivity. Qed.
+
+Definition records_ok (d : defrag) (records : list (Z * list Z)) : Prop :=
+  Forall (fun r => nonneg (snd r) /\ defined (fst r) d = true) records.
+
+Lemma feed_spec : forall records d, dinv d -> records_ok d records ->
+  exists ms d', feed records d = Ok (ms, d') /\ dinv d' /\ get_message d' = None /\
+  forall t dec, decoder_of t d = Some dec ->
+    msgs_of t ms = fst (parse_stream dec (buffer_of t d ++ stream_for t records)) /\
+    buffer_of t d' = snd (parse_stream dec (buffer_of t d ++ stream_for t records)).
+Proof.
+  induction records as [|[ty data] rs IH]; intros d Hinv Hrec.
+  - cbn [feed]. unfold drain.
+    pose proof (drain_fuel_spec (S (total_len d)) d Hinv ltac:(lia)) as [H1 [H2 [H3 [H4 H5]]]].
+    destruct (drain_fuel (S (total_len d)) d) as [ms d'] eqn:E. cbn [fst snd] in *.
+    exists ms, d'. split; [reflexivity|]. split; [exact H2|]. split; [exact H1|].
+    intros t dec Hdec. unfold stream_for. cbn [filter map concat]. rewrite app_nil_r. apply H5. exact Hdec.
+  - inversion Hrec as [|r rs' [Hdata Hdef] Hrest]; subst. cbn [fst snd] in *.
+    cbn [feed]. unfold drain.
+    pose proof (drain_fuel_spec (S (total_len d)) d Hinv ltac:(lia)) as [H1 [H2 [H3 [H4 H5]]]].
+    destruct (drain_fuel (S (total_len d)) d) as [ms1 d1] eqn:E. cbn [fst snd] in *.
+    unfold add_data. rewrite H4, Hdef. cbn [bind].
+    destruct (append_to_spec ty data d1 H2 Hdata ltac:(rewrite H4; exact Hdef)) as [A1 [A2 [A3 [A4 A5]]]].
+    assert (Hrec2 : records_ok (append_to ty data d1) rs).
+    { unfold records_ok in *. eapply Forall_impl; [|exact Hrest].
+      intros r [Ha Hb]. split; [exact Ha|]. rewrite A5, H4. exact Hb. }
+    destruct (IH (append_to ty data d1) A1 Hrec2) as [ms2 [d3 [F1 [F2 [F3 F4]]]]].
+    rewrite F1. cbn [bind].
+    exists (ms1 ++ ms2), d3. split; [reflexivity|]. split; [exact F2|]. split; [exact F3|].
+    intros t dec Hdec.
+    assert (Hw : dwf dec) by (apply (decoder_of_wf t d dec Hinv Hdec)).
+    destruct (H5 t dec Hdec) as [P1 P2].
+    assert (Hdec2 : decoder_of t (append_to ty data d1) = Some dec) by (rewrite A4, H3; exact Hdec).
+    destruct (F4 t dec Hdec2) as [Q1 Q2].
+    rewrite stream_for_cons.
+    assert (Hx : nonneg ((if ty =? t then data else []) ++ stream_for t rs)).
+    { apply nonneg_app; [destruct (ty =? t); [exact Hdata|constructor]|].
+      unfold stream_for. clear -Hrest. induction Hrest as [|r rs [Ha Hb] Hr IHr]; cbn [filter].
+      - cbn. constructor.
+      - destruct (fst r =? t); cbn [map concat]; [apply nonneg_app; assumption|exact IHr]. }
+    rewrite (parse_append dec Hw _ Hx (buffer_of t d) (buffer_of_nonneg t d Hinv)).
+    cbn [fst snd]. rewrite <- P2.
+    assert (Hb2 : buffer_of t (append_to ty data d1) = buffer_of t d1 ++ (if ty =? t then data else [])).
+    { destruct (ty =? t) eqn:Et.
+      - apply Z.eqb_eq in Et. subst t. exact A2.
+      - rewrite app_nil_r. apply A3. apply Z.eqb_neq in Et. congruence. }
+    rewrite Hb2, <- app_assoc in Q1, Q2.
+    rewrite msgs_of_app, P1, Q1, Q2. split; reflexivity.
+Qed.
+
+(* two ways of cutting the same per-type streams into records give the same messages *)
+Lemma refragment_invariant d records1 records2 :
+  dinv d -> records_ok d records1 -> records_ok d records2 ->
+  (forall t, stream_for t records1 = stream_for t records2) ->
+  exists ms1 d1 ms2 d2,
+    feed records1 d = Ok (ms1, d1) /\ feed records2 d = Ok (ms2, d2) /\
+    forall t, defined t d = true -> msgs_of t ms1 = msgs_of t ms2 /\ buffer_of t d1 = buffer_of t d2.
+Proof.
+  intros Hinv H1 H2 Hs.
+  destruct (feed_spec records1 d Hinv H1) as [ms1 [d1 [F1 [_ [_ S1]]]]].
+  destruct (feed_spec records2 d Hinv H2) as [ms2 [d2 [F2 [_ [_ S2]]]]].
+  exists ms1, d1, ms2, d2. split; [exact F1|]. split; [exact F2|].
+  intros t Hdef.
+  destruct (decoder_of t d) as [dec|] eqn:Ed.
+  - destruct (S1 t dec Ed) as [A1 A2]. destruct (S2 t dec Ed) as [B1 B2].
+    rewrite A1, A2, B1, B2, Hs. split; reflexivity.
+  - exfalso. clear -Hdef Ed. induction d as [|e d IH]; [discriminate|].
+    rewrite decoder_of_cons in Ed. rewrite defined_cons in Hdef.
+    destruct (e_type e =? t); [discriminate|]. apply IH; assumption.
+Qed.
+
+Lemma tls_defrag_inv : dinv tls_defrag.
+Proof. unfold dinv, tls_defrag. cbn. repeat split. repeat constructor. Qed.
+
+(* priority: the message returned belongs to the first type, in priority order, that has a
+   complete message *)
+Lemma get_message_priority : forall d t m d', get_message d = Some ((t, m), d') ->
+  exists pre e post, d = pre ++ e :: post /\ e_type e = t /\
+    (forall e', In e' pre -> msg_size (e_dec e') (e_buf e') = None) /\
+    exists n, msg_size (e_dec e) (e_buf e) = Some n /\ m = firstn (Z.to_nat n) (e_buf e) /\
+      d' = pre ++ (e_type e, e_dec e, skipn (Z.to_nat n) (e_buf e)) :: post.
+Proof.
+  induction d as [|e d IH]; intros t m d' H; [discriminate|].
+  cbn [get_message] in H.
+  destruct (msg_size (e_dec e) (e_buf e)) as [n|] eqn:E.
+  - injection H as <- <- <-. exists [], e, d. cbn [app].
+    split; [reflexivity|]. split; [reflexivity|]. split; [intros e' []|].
+    exists n. repeat split. exact E.
+  - destruct (get_message d) as [[m0 d0]|] eqn:Eg; [|discriminate].
+    injection H as -> <-.
+    destruct (IH t m d0 eq_refl) as [pre [e1 [post [H1 [H2 [H3 [n [H4 [H5 H6]]]]]]]]].
+    exists (e :: pre), e1, post. cbn [app]. rewrite <- H1.
+    split; [reflexivity|]. split; [exact H2|].
+    split; [intros e' [<-|Hin]; [exact E|apply H3; exact Hin]|].
+    exists n. split; [exact H4|]. split; [exact H5|]. rewrite H6. reflexivity.
+Qed.
+
+Lemma is_empty_spec d : is_empty d = true <-> forall e, In e d -> e_buf e = [].
+Proof.
+  unfold is_empty. rewrite forallb_forall. split; intros H e Hin.
+  - apply zlen_nil. apply Z.eqb_eq. apply H. exact Hin.
+  - rewrite (H e Hin). reflexivity.
+Qed.
+
+Lemma clear_buffers_empty d : is_empty (clear_buffers d) = true.
+Proof.
+  unfold is_empty, clear_buffers. rewrite forallb_forall. intros e Hin.
+  apply in_map_iff in Hin. destruct Hin as [e0 [<- _]]. reflexivity.
+Qed.
